@@ -25,7 +25,8 @@ E  lazy callables (coroutine functions, generator functions, async generators; a
    function / method / classmethod / staticmethod in both decorator orders; explicit
    decorator, typechecker=None, import hook): a call only CREATES an object, the body
    runs when it is driven (send / next / asend, by hand, no event loop).  ALL histories
-   of length <= 4 (quick) / <= 5 (thorough) over {ON, OFF, CW, CI, CN, S} (S = drive
+   of length <= 4 (quick) / <= 6 (thorough) over {ON, OFF, C, S} (C = call with a
+   well-typed, an ill-typed and a non-binding argument list: three new objects; S = drive
    every live object one step), from a callable decorated while enabled and while
    disabled, plus a matrix of switch-timing templates (flip before the call, between
    the call and the first step, between steps) x the whole argument battery.  Every
@@ -329,12 +330,13 @@ def lazy_source(kind, j: bool, ntc):
     head = "def" if fl == "gen" else "async def"
     b = ind + "    "
     body = f"{b}r = BODY('{name}', x, y, k)\n"
+    # `got`: what the driver sends in at the suspension point (logged by the second section)
     if fl == "coro":
-        body += f"{b}await SUSP\n{b}BODY('{name}2')\n{b}return r\n"
+        body += f"{b}got = await SUSP\n{b}BODY('{name}2', got)\n{b}return r\n"
     elif fl == "gen":
-        body += f"{b}yield r\n{b}BODY('{name}2')\n{b}yield y\n{b}return r\n"
+        body += f"{b}got = yield r\n{b}BODY('{name}2', got)\n{b}yield y\n{b}return r\n"
     else:
-        body += f"{b}yield r\n{b}await SUSP\n{b}BODY('{name}2')\n{b}yield y\n"
+        body += f"{b}got = yield r\n{b}got2 = await SUSP\n{b}BODY('{name}2', got, got2)\n{b}yield y\n"
     return pre + _lines(decos, ind) + f"{ind}{head} {name}({first}{SIG}) -> {LAZY_RET[fl]}:\n" + body
 
 
@@ -438,6 +440,7 @@ class Fx:
             "GOOD": Duck((2,)),
             "BAD": "bad-return",
             "RET5": Duck((5,)),
+            "SENT": Duck((7,)),
             "None": None,
         }
         self.P2, self.P3 = Duck((2,)), Duck((3,))
@@ -1014,7 +1017,8 @@ def _job_dc(job):
 
 # --------------------------------------------------------------------------- part E (lazy callables)
 
-LOPS = ("ON", "OFF", "CW", "CI", "CN", "S")
+LOPS = ("ON", "OFF", "C", "S")
+LAZY_HIST_CALLS = ("W", "I", "N")  # one C op makes three objects: well-typed, ill-typed, non-binding argument list
 LAZY_TCS = TCS + ("none",)  # 'none': jaxtyped(typechecker=None) - a binding context only, nothing is checked
 
 # (name, switch state at decoration, ops); "C" = create one object per call of the battery
@@ -1058,7 +1062,7 @@ def lazy_histories(maxlen):
 
 
 def lazy_ops(hist):
-    return tuple(f"C:{CALL_OF_OP[o]}" if o in CALL_OF_OP else o for o in hist)
+    return tuple("C:" + ",".join(LAZY_HIST_CALLS) if o == "C" else o for o in hist)
 
 
 def lazy_judges_enabled(combo):
@@ -1075,19 +1079,22 @@ class Live:
     def __init__(self, fx, fl, obj):
         self.fx, self.fl, self.obj = fx, fl, obj
         self.pending = None  # the asend() awaitable in flight (async generators)
+        self.started = False
         self.done = False
 
     def step(self):
+        """First step: send(None) (the only legal one); later steps send the object SENT in."""
         fx = self.fx
+        sent = fx.objs["SENT"] if self.started else None
+        self.started = True
         try:
-            if self.fl == "coro":
-                return ("susp", fx.token(self.obj.send(None)))
-            if self.fl == "gen":
-                return ("yield", fx.token(next(self.obj)))
-            if self.pending is None:
-                self.pending = self.obj.__anext__()
+            if self.fl in ("coro", "gen"):
+                return ("susp" if self.fl == "coro" else "yield", fx.token(self.obj.send(sent)))
+            resumed = self.pending is not None
+            if not resumed:
+                self.pending = self.obj.asend(sent)
             try:
-                v = self.pending.send(None)
+                v = self.pending.send(fx.objs["SENT"] if resumed else None)
             except BaseException:
                 self.pending = None
                 raise
@@ -1693,6 +1700,20 @@ def _job(job):
     import warnings
 
     warnings.simplefilter("ignore")
+    import resource
+    import time
+
+    def cpu():
+        c = resource.getrusage(resource.RUSAGE_CHILDREN)
+        return time.process_time() + c.ru_utime + c.ru_stime
+
+    t0 = cpu()
+    out = _job_dispatch(job)
+    out["cpu_s"] = cpu() - t0
+    return out
+
+
+def _job_dispatch(job):
     return {"hist": _job_hist, "matrix": _job_matrix, "update": _job_update, "env": _job_env, "dc": _job_dc, "lazy-hist": _job_lazy_hist, "lazy-matrix": _job_lazy_matrix}[job["part"]](job)
 
 
@@ -1731,7 +1752,7 @@ LAZY_HIST_QUICK = [
 
 def lazy_hist_combos(ctx):
     """-> [(combo, maxlen)]; both decoration-time switch states are run for each."""
-    ml = 4 if ctx.quick else 5
+    ml = 4 if ctx.quick else 6
     out = [((d, k, t, n), ml) for d, k, n in LAZY_HIST_QUICK for t in TCS]
     if ctx.thorough:
         seen = {c for c, _ in out}
@@ -1739,7 +1760,7 @@ def lazy_hist_combos(ctx):
         extra += [("deco", k, "none", None) for k in ("coro_def", "gen_def", "agen_def")]
         extra += [("deco", k, t, n) for k in ("gen_def", "agen_def") for t in TCS for n in ("above", "below")]
         extra += [("hook", k, t, None) for k in HOOK_LAZY_KINDS for t in TCS]
-        out += [(c, 4) for c in extra if c not in seen]
+        out += [(c, 5) for c in extra if c not in seen]
     return out
 
 
@@ -1772,7 +1793,7 @@ def build_jobs(ctx):
     for combo, ml in lhc:
         n = len(lazy_histories(ml))
         for initial in (False, True):
-            for idx in common.shards(n, 1 if ml <= 4 else 4, ctx.seed):
+            for idx in common.shards(n, {4: 1, 5: 2, 6: 6}[ml], ctx.seed):
                 jobs.append(dict(part="lazy-hist", combo=list(combo), initial=initial, maxlen=ml, idx=idx))
     lmc = lazy_matrix_combos()
     for idx in common.shards(len(lmc), 8, ctx.seed):
@@ -1797,7 +1818,7 @@ def build_jobs(ctx):
         histories_per_combo=nh,
         history_combos=[f"{combo_str(c)}:stack-{int(s)}:len<={ml}" for c, s, ml in hist_combos],
         matrix_combos=len(mc),
-        lazy_history_max_len=maxlen,
+        lazy_history_max_len=max(m for _, m in lhc),
         lazy_histories_per_combo={ml: len(lazy_histories(ml)) for ml in sorted({m for _, m in lhc})},
         lazy_history_combos=[f"{combo_str(c)}:len<={ml}" for c, ml in lhc],
         lazy_matrix_combos=len(lmc),
@@ -1831,7 +1852,7 @@ def run(ctx):
     outs = common.pmap(_job, jobs)
     order = sorted(range(len(jobs)), key=lambda i: _job_sort_key(jobs[i]))
     stats = {}
-    per_part = {}
+    per_part, cpu_by_part = {}, {}
     viols, samples, states = [], [], set()
     for i in order:
         o, part = outs[i], jobs[i]["part"]
@@ -1840,6 +1861,7 @@ def run(ctx):
         pp["evaluations"] += o["stats"]["evaluations"]
         pp["nontrivial"] += o["stats"]["nontrivial"]
         pp["jobs"] += 1
+        cpu_by_part[part] = cpu_by_part.get(part, 0.0) + o.get("cpu_s", 0.0)
         viols += [Violation(**v) for v in o["viols"]]
         states.update(o.get("states", []))
         samples += o["samples"]
@@ -1904,7 +1926,7 @@ def run(ctx):
         ),
         bounds=f"histories: all sequences of length <= {info['history_max_len']} over {list(OPS)} ({info['histories_per_combo']} per combination; "
         "thorough adds 12 further combinations at length <= 4), each started from one callable decorated while enabled; "
-        f"lazy callables: all sequences of length <= {info['lazy_history_max_len']} over {list(LOPS)} ({info['lazy_histories_per_combo']} per combination by length bound), "
+        f"lazy callables: all sequences of length <= {info['lazy_history_max_len']} over {list(LOPS)} ({info['lazy_histories_per_combo']} per combination by length bound; one C makes {len(LAZY_HIST_CALLS)} objects: calls {list(LAZY_HIST_CALLS)}; S drives every live object one step), "
         f"each from a callable decorated while enabled and while disabled, {len(info['lazy_history_combos'])} combinations; lazy matrix: {info['lazy_matrix_combos']} combinations "
         f"({len(LAZY_KINDS)} kinds x typeguard/beartype/typechecker=None x no_type_check placements, + hooked) x {len(LAZY_TEMPLATES)} switch-timing templates x {len(F1)} argument lists; "
         f"item names: all {info['item_casings'][D_ITEM]} letter-casings of jaxtyping_disable, {info['item_casings'][S_ITEM]} casings of "
@@ -1923,6 +1945,7 @@ def run(ctx):
             "the attribute is validated against behaviour (ill-typed call raises or not) on every value x 3 name spellings x both priors",
         ],
         notes=notes
+        + ["cpu seconds by part (this run, all workers): " + ", ".join(f"{k}={v:.0f}" for k, v in sorted(cpu_by_part.items()))]
         + [
             "don't-care: non-bool 0/1/1.0/0.0 as switch value (accepted-as-bool or ValueError both allowed); item names not in lower case may also be rejected with ValueError; "
             "non-binding calls while checking is ON; no_type_check applied to a classmethod/staticmethod/property OBJECT or to a dataclass (Python marks no function there); "
